@@ -181,7 +181,7 @@ Proof.
 Qed.
 
 (* an undecoded member with a key set: emitted as the encryption of the decoded object (or as a member of
-   an object stream); without a key the fast path copies it verbatim *)
+   an object stream); without a key it is emitted as the decoded object, never copied verbatim *)
 Lemma lazy_enciphered : forall strE stmE o e,
   write_iobj true strE stmE false (ILazy o) = Ok e ->
   exists o', e = EmTop o' /\ encryptDeep strE o = Ok o'.
@@ -194,6 +194,6 @@ Proof.
     end.
 Qed.
 
-Lemma lazy_unkeyed_verbatim : forall strE stmE to_os o,
-  write_iobj false strE stmE to_os (ILazy o) = Ok (EmTop o).
+Lemma lazy_unkeyed_decoded : forall strE stmE to_os o,
+  write_iobj false strE stmE to_os (ILazy o) = write_plain to_os (IObj o).
 Proof. reflexivity. Qed.
